@@ -949,6 +949,16 @@ func (e *SpecEnv) call(n *ECall) (tv, error) {
 				ref = fmt.Sprintf("(s.arr %s)", a.t)
 			}
 			return tv{t: fmt.Sprintf("(and (>= %s %s) (< %s %s))", ref, vc.stGet0(e.old, "$alloc"), ref, vc.stGet0(e.st, "$alloc")), ty: tBool}, nil
+		case "disjoint":
+			// disjoint(a, b): the two slices have different backing arrays
+			as, err := argv()
+			if err != nil {
+				return tv{}, err
+			}
+			if len(as) != 2 || d.sortOf(as[0].ty) != "Slice" || d.sortOf(as[1].ty) != "Slice" {
+				return tv{}, fmt.Errorf("disjoint needs two slices")
+			}
+			return tv{t: fmt.Sprintf("(not (= %s %s))", slArr(as[0].t), slArr(as[1].t)), ty: tBool}, nil
 		case "typetag":
 			as, err := argv()
 			if err != nil {
